@@ -311,8 +311,9 @@ class Link(object):
         deadline = None
         if timeout is not None:
             deadline = self.clock.now + max(0.0, timeout)
-        self.device._check_stall(self.clock.now)
-        if self.device.stalled and self.device.stall.get('kind') == 'eof':
+        if self.cur is None:
+            self.device._check_stall(self.clock.now)      # a stall begins at a packet boundary
+        if self.cur is None and self.device.stalled and self.device.stall.get('kind') == 'eof':
             self.clock.advance(self.idle_cost)
             self._rec(idx, actor, 'r', n, timeout, 0)
             return b''
@@ -466,8 +467,9 @@ class AsyncOps(object):
         deadline = None
         if timeout is not None:
             deadline = clock.now + max(0.0, timeout)
-        link.device._check_stall(clock.now)
-        if link.device.stalled and link.device.stall.get('kind') == 'eof':
+        if link.cur is None:
+            link.device._check_stall(clock.now)
+        if link.cur is None and link.device.stalled and link.device.stall.get('kind') == 'eof':
             clock.advance(link.idle_cost)
             link._rec(idx, actor, 'r', n, timeout, 0)
             return b''
